@@ -549,12 +549,19 @@ def stageC (o : Opts) (u : TUnit) : TUnit :=
   let u := if o.maxUnion != 0 then (passCollapse o.maxUnion).runUnit u else u
   passAdjust.runUnit u
 
-def stageD (o : Opts) (u : TUnit) : TUnit :=
-  let u := if o.removeMutable then
-      passAdjustSelf.runUnit (passMergeTypeParams.runUnit (passCombineContainers.runUnit (passAbsorb.runUnit u)))
-    else u
+/-- `if remove_mutable:` AbsorbMutableParameters, CombineContainers, MergeTypeParameters … -/
+def stageD1 (o : Opts) (u : TUnit) : TUnit :=
+  if o.removeMutable then
+    passMergeTypeParams.runUnit (passCombineContainers.runUnit (passAbsorb.runUnit u))
+  else u
+
+/-- … `visitors.AdjustSelf()`; then the final SimplifyContainers and LookupClasses -/
+def stageD2 (o : Opts) (u : TUnit) : TUnit :=
+  let u := if o.removeMutable then passAdjustSelf.runUnit u else u
   let u := passSimplifyContainers.runUnit u
   if o.hasDeps && o.canDoLookup then passLookup.runUnit u else u
+
+def stageD (o : Opts) (u : TUnit) : TUnit := stageD2 o (stageD1 o u)
 
 /-- optimize.Optimize(node, deps, lossy, use_abcs, max_union, remove_mutable, can_do_lookup) on a
 TypeDeclUnit; `deps`/`abcs` are the superclass dicts of `deps` and of abc_hierarchy. -/
